@@ -152,7 +152,12 @@ func runG(c GCase, rec *h.Rec) {
 				return
 			}
 			if has {
-				rec.Class("prefix_ends_in_marker_identical_block")
+				// the stream was written by bgzf.Writer, which puts the marker at the
+				// end only (an empty block it writes elsewhere is spelled differently:
+				// no prefix of its output ended like this in any run on the unchanged
+				// tree), so a proper prefix that passes for a closed stream is a loss
+				rec.Failf("the proper prefix of %d/%d bytes (cut %s) ends with a block identical to the EOF marker: HasEOF reports true and %d of %d bytes of data are missing", cut, len(stream), where, len(model)-len(data), len(model))
+				return
 			}
 		}
 		if !atStart {
